@@ -385,3 +385,46 @@ impl Drop for Cluster {
         }
     }
 }
+
+/// Only the client process, pointed at `link_port` (where a reference server listens).
+pub struct ClientOnly {
+    pub spec: Spec,
+    pub cred: Cred,
+    pub dir: PathBuf,
+    pub client: Proc,
+    pub client_port: u16,
+}
+
+impl ClientOnly {
+    pub fn start(spec: &Spec, link_port: u16) -> Result<ClientOnly, StartErr> {
+        let dir = work_dir();
+        let cred = spec.cred();
+        let client_port = free_port();
+        let cdoc = client_doc(spec, &cred, client_port, link_port);
+        let cp = dir.join("client.json");
+        std::fs::write(&cp, serde_json::to_string_pretty(&cdoc).unwrap()).map_err(|e| StartErr::Io(e.to_string()))?;
+        let mut client = Proc::spawn(&client_bin(), &[cp.to_str().unwrap()], &dir, "client", spec.workers, spec.nofile).map_err(StartErr::Io)?;
+        if let Err(e) = wait_ready(&mut client, "client", client_port, &Expect { tcp: true, udp: spec.udp }, Duration::from_secs(20)) {
+            drop(client);
+            let _ = std::fs::remove_dir_all(&dir);
+            return Err(e);
+        }
+        Ok(ClientOnly { spec: spec.clone(), cred, dir, client, client_port })
+    }
+    pub fn health(&mut self) -> Result<(), String> {
+        if let Some(st) = self.client.exited() {
+            return Err(format!("client process exited ({}): {}", st, self.client.log_tail(6)));
+        }
+        if let Some(p) = self.client.panicked() {
+            return Err(format!("client task panicked: {}", p));
+        }
+        Ok(())
+    }
+}
+
+impl Drop for ClientOnly {
+    fn drop(&mut self) {
+        self.client.kill();
+        let _ = std::fs::remove_dir_all(&self.dir);
+    }
+}
